@@ -22,6 +22,18 @@ Theorem C12_gauss150_exact : well_formed (10 ^ 10) D gauss150 && exact_to_degree
 Proof. vm_compute. reflexivity. Qed.
 Print Assumptions C12_gauss150_exact.
 
+(* tables of other sizes are written on demand by sasmodels.gengauss (set_integration_size / sascomp -ngauss=N);
+   two sizes that are not multiples of four, generated with the current code on every run: exactly N points
+   (GAUSS_N counts no padding), well formed, and exact for every degree < 2N *)
+Theorem C12_gengauss10_exact :
+  (Nat.eqb gengauss10_size 10 && Nat.eqb (length gengauss10) 10 && well_formed (10 ^ 13) D gengauss10 && exact_to_degree (10 ^ 13) D gengauss10) = true.
+Proof. vm_compute. reflexivity. Qed.
+Print Assumptions C12_gengauss10_exact.
+Theorem C12_gengauss31_exact :
+  (Nat.eqb gengauss31_size 31 && Nat.eqb (length gengauss31) 31 && well_formed (10 ^ 13) D gengauss31 && exact_to_degree (10 ^ 13) D gengauss31) = true.
+Proof. vm_compute. reflexivity. Qed.
+Print Assumptions C12_gengauss31_exact.
+
 (* ---- the change of variables (Coquelicot's Riemann integral) ----
    h(u) is the particle-frame function as a function of u = cos(alpha), alpha the angle between q and the particle
    axis: h(u) = g(q sqrt(1-u^2), q u) for a shape of revolution, continuous and even in u.  The uniform average
